@@ -185,7 +185,7 @@ CLAIMED["C01"] = _symx(
     "remove_entity, add_data, property-group edits, close + re-open) on a stored tree with symbolic geometry and values; the "
     "operation at each step is a symbolic choice (every sequence of the bounded length is one explored path); z3 validity of "
     "'tree read by a fresh Workspace == tree the live workspace shows', term by term; counterexamples replayed on real numpy/h5py",
-    "bounded symbolic model checking, partial: for every sequence of 2 (thorough: 3) operations from an alphabet of 20 on a tree of "
+    "bounded symbolic model checking, partial: for every sequence of 2 (thorough: 3) operations from an alphabet of 22 on a tree of "
     "two groups, a second object with data, one target object (3-vertex point set or curve) with symbolic vertices, a float data set with symbolic values, an integer "
     "data set and a property group, the real code runs on a real HDF5 file (proxy keeps symbolic payloads) and z3 proves that a "
     "fresh Workspace shows exactly the entities the live one shows (none lost, duplicated or resurrected), each with the same "
@@ -207,7 +207,7 @@ CLAIMED["C05"] = _symx(
     "replayed on real numpy/h5py",
     "bounded symbolic model checking, partial: on a tree {group {object with four data sets in two overlapping property groups, "
     "nested group {curve with cell data}}, object with data} every combination of removed entity (8) x entry point (workspace, "
-    "parent) x delete permission (on, off, off and re-read from the file) x follow-up (none, copy a survivor, remove another entity, add data, re-open then copy) "
+    "parent; also two adjacent children in one call) x delete permission (on, off, off and re-read from the file) x follow-up (none, copy a survivor, remove another entity, add data, re-open then copy) "
     "is explored: the entity and its descendants are gone from the tree, lookups by identifier and name, listings (references "
     "dropped, collector run) and the file's containers; no property group lists removed data; survivors (symbolic vertices and "
     "values) are unchanged live and re-read; follow-ups succeed; a workspace removal with the permission off is refused and "
